@@ -58,11 +58,20 @@ void verif_native_exit(int outcome, const char *msg);
 #  define VERIF_OUT_OF_RANGE(T) (verif_native_exit(VERIF_OUTOFRANGE, "out_of_range"), (T)0)
 #endif
 
+/* a product of two non-constant operands: plain multiplication unless the harness abstracts it (C01's equivalence obligations use an
+ * uninterpreted function for both copies: equal operands give equal products, which is all an equivalence of two copies needs) */
+#ifndef VERIF_MUL
+#define VERIF_MUL(T, a, b) ((a) * (b))
+#endif
 #define VERIF_SWAP(a, b) do { __typeof__(a) verif_t = (a); (a) = (b); (b) = verif_t; } while (0)
 #define VERIF_MIN(a, b) ((b) < (a) ? (b) : (a))
 #define VERIF_MAX(a, b) ((a) < (b) ? (b) : (a))
 static inline bool verif_exchange_bool(bool *p, bool v) { bool o = *p; *p = v; return o; }
-#define VERIF_EXCHANGE(obj, v) verif_exchange_bool(&(obj), (v))
+#define VERIF_EXCHANGE(obj, v) verif_exchange_bool(&(obj), (v))        /* std::atomic<bool>::exchange */
+static inline u8 verif_exchange_u8(u8 *p, u8 v) { u8 o = *p; *p = v; return o; }
+static inline u16 verif_exchange_u16(u16 *p, u16 v) { u16 o = *p; *p = v; return o; }
+static inline u32 verif_exchange_u32(u32 *p, u32 v) { u32 o = *p; *p = v; return o; }
+static inline u64 verif_exchange_u64(u64 *p, u64 v) { u64 o = *p; *p = v; return o; }
 
 /* std::memset(p, 0, n): byte loop (only Teakra::Impl::Reset uses it; the loop is given a contract there) */
 #ifdef VERIF_CBMC
